@@ -76,7 +76,10 @@ def text(max_atoms=12):
 
 def key_text():
     return st.one_of(st.sampled_from(WORDS), st.sampled_from(LOOKALIKES), generic_text(4), text(6),
-                     st.sampled_from(["k" * 127, "k" * 128, "k" * 129, "k " * 70, "a\nb", "a\n\nb\n"]))
+                     st.sampled_from(["k" * 127, "k" * 128, "k" * 129, "k " * 70, "a\nb", "a\n\nb\n"]),
+                     # keys whose *written* length differs a lot from their length: every character becomes an escape
+                     st.tuples(st.sampled_from(["\U0001F600", "\u65e5", "\xe9", "\x07", "\x85", "\ufeff", "\U0010ffff"]),
+                               st.integers(95, 130)).map(lambda t: t[0] * t[1]))
 
 
 # ---------------------------------------------------------------------------------------------
